@@ -20,9 +20,11 @@ ver=json.loads('''$ver''')
 det='''$det'''
 verdicts={}
 for line in det.splitlines():
-    for tag in ('VIOLATION','PASS','INCONCLUSIVE'):
-        if line.startswith(tag+' property=') and ' tier=' in line:
-            verdicts[line.split('property=')[1].split()[0]]=tag
+    for tag in ('PASS','INCONCLUSIVE','VIOLATION'):
+        if line.startswith(tag+' property='):
+            pid=line.split('property=')[1].split()[0]
+            if verdicts.get(pid)!='VIOLATION':
+                verdicts[pid]=tag
 hits=sorted({l.split('harness=')[1].split()[0]+':'+l.split('assertion=')[1].split()[0] for l in det.splitlines() if 'harness=' in l and 'assertion=' in l})
 out={"property":prop,"summary":m.get('summary'),"needs":m.get('needs'),"files_changed":m.get('files_changed'),
  "demo_file":m.get('demo_file'),"demo_dest":m.get('demo_dest'),"demo_cmd":ver['demo_cmd'],
